@@ -3559,3 +3559,30 @@ E("EQ-seal-persist-in-match", KS, _SEAL, """        let mut journal_writer = jou
             return Err(e.into());
         }
 """, props=["C03", "C13", "C14", "C02"])
+
+# ---- repair 33 reverted; round-5 gap rules
+B("F33-C17-markerless-folder-refused-without-lock-probe", "C17", "C17:R-C17.6:db::Database::create_or_recover:held-lock-reported", DB,
+  """                if lock_path.try_exists()? {
+                    LockedFileGuard::try_acquire(&lock_path)?;
+                }
+""", """                let _ = lock_path;
+""")
+B("C17-lock-probe-result-ignored", "C17", "C17:R-C17.6:db::Database::create_or_recover:held-lock-reported", DB,
+  "                    LockedFileGuard::try_acquire(&lock_path)?;", "                    LockedFileGuard::try_acquire(&lock_path).ok();")
+B("C04-replay-guard-wider-than-persisted", "C04", "C04:R-C04.5:db::Database::recover:replay-guard-skips-exactly", "src/recovery.rs",
+  "            .is_some_and(|persisted| seqno <= persisted)", "            .is_some_and(|persisted| seqno <= persisted + 1)")
+B("C02-replay-guard-inverted", "C02", "C02:R-C02.13", "src/recovery.rs",
+  "            .is_some_and(|persisted| seqno <= persisted)", "            .is_some_and(|persisted| seqno >= persisted)")
+E("EQ-replay-guard-as-not-greater", "src/recovery.rs", "            .is_some_and(|persisted| seqno <= persisted)", "            .is_some_and(|persisted| !(seqno > persisted))", props=["C04", "C18", "C02"])
+E("EQ-replay-guard-flipped-operands", "src/recovery.rs", "            .is_some_and(|persisted| seqno <= persisted)", "            .is_some_and(|persisted| persisted >= seqno)", props=["C04", "C18", "C02"])
+B("C03-batch-reader-reverses-items", "C03", "C03:R-C03.12", "src/journal/batch_reader.rs",
+  "                    let items = std::mem::take(&mut self.items);", "                    let mut items = std::mem::take(&mut self.items);\n                    items.reverse();")
+B("C12-compaction-uses-first-keyspaces-strategy", "C12", "C12:R-C12.10", "src/compaction/worker.rs",
+  "    let strategy = keyspace.config.compaction_strategy.clone();", """    let strategy = keyspace
+        .supervisor
+        .keyspaces
+        .read()
+        .expect("lock is poisoned")
+        .values()
+        .next()
+        .map_or_else(|| keyspace.config.compaction_strategy.clone(), |k| k.config.compaction_strategy.clone());""")
